@@ -38,7 +38,8 @@ _orig_append = CsvLineSpooler.append
 
 
 def _tee_append(self, line):
-    TEE.setdefault(id(self.result), []).append([f"{c}" for c in line])
+    # (csv writes None as an empty cell: that much loss is inherent in the file format)
+    TEE.setdefault(id(self.result), []).append(["" if c is None else f"{c}" for c in line])
     return _orig_append(self, line)
 
 
@@ -60,6 +61,9 @@ def generate(rng, i, tier):
         if rng.random() < 0.1:
             modes["run-mode"] = "no-run"
         m = gen.gen_member(rng, hdr, len(rows), ident, modes=modes, zoo_p=0.3, zoo_pool=gen.ZOO_SAFE)
+        if rng.random() < 0.2:
+            # in-place edits of the line (append/replace): in a breadth-first run later members see the edited line
+            m["comps"].insert(rng.randint(0, len(m["comps"])), gen.zoo_comp(rng, hdr, 40 + j, gen.ZOO_REWRITE))
         if rng.random() < 0.2:
             # cross-path signals: what they mean is not this property's business, only that memory and disk agree afterwards
             sig = rng.choice(["fail_all()", "stop_all()", "skip_all()", "advance_all(1)", "fail_all()"])
@@ -196,7 +200,7 @@ def check_run_archive(out, cs, group, members, where, *, collecting, caller_line
             kinds.add("data")
         if not collecting and md["data"]:
             out.v("data_without_collect", f"{mw}: data.csv has {len(md['data'])} lines but the run form does not collect", **facts)
-        mem_um = [[f"{c}" for c in l] for l in (r.unmatched or [])]
+        mem_um = [["" if c is None else f"{c}" for c in l] for l in (r.unmatched or [])]
         if (md["unmatched"] or []) != mem_um:
             out.v("unmatched_mismatch", f"{mw}: unmatched.csv parses to {md['unmatched']!r:.300}, unmatched lines were {mem_um!r:.300}", **facts)
         if mem_um:
@@ -307,6 +311,7 @@ def execute(sc):
                 break
         out.probe("run after an abandoned generator run on the same instance", False)
         out.probe("member using a cross-path signal (fail_all/stop_all/skip_all/advance_all)", any("_all(" in c for m in sc["members"] for c in m["comps"]))
+        out.probe("member that edits the line in place (append/replace)", any(c.startswith(("append(", "replace(")) for m in sc["members"] for c in m["comps"]))
         out.probe("member with run-mode: no-run", any((m.get("modes") or {}).get("run-mode") == "no-run" for m in sc["members"]))
         out.log("tree", _digest_tree(checked_dirs))
     return out.done()
